@@ -199,6 +199,22 @@ class Contract:
         self.use_lemmas = list(use_lemmas)   # instantiated lemma statements assumed (each proved elsewhere)
 
 
+def drop_result_disjuncts(expr: str) -> str:
+    """On a path that raised there is no `result`: a postcondition that mentions it can only
+    hold through disjuncts that do not (conservative: anything else counts as false)."""
+    tree = ast.parse(expr, mode='eval').body
+
+    def mentions(n):
+        return any(isinstance(x, ast.Name) and x.id == 'result' for x in ast.walk(n))
+    if not mentions(tree):
+        return expr
+    if isinstance(tree, ast.BoolOp) and isinstance(tree.op, ast.Or):
+        keep = [v for v in tree.values if not mentions(v)]
+        if keep:
+            return ' or '.join('(' + ast.unparse(v) + ')' for v in keep)
+    return 'False'
+
+
 def outcome_env(outcome):
     env = {}
     if outcome[0] == 'return':
@@ -355,7 +371,10 @@ def run_contract(contract: Contract, tier='quick', seed=0, known=None):
         if ex.path.out is not None:
             env2.vars['out'] = ex.path.out
         for label, expr in contract.post:
-            val = ex.spec_eval(expr, env2)
+            e2 = expr
+            if outcome[0] == 'raise':
+                e2 = drop_result_disjuncts(expr)
+            val = ex.spec_eval(e2, env2)
             ex.oblige(label, ex.truthy(val), 'V', expr)
         if outcome[0] == 'raise':
             raise I.PyRaise(outcome[1])
@@ -404,7 +423,7 @@ def run_contract(contract: Contract, tier='quick', seed=0, known=None):
             res['queries'] += 1
             backend = how
             model = None
-            if r == z3.unknown:
+            if r == z3.unknown and backend != 'cvc5':
                 r2 = cvc5_check(s, timeout_ms)
                 if r2 in ('unsat', 'sat'):
                     backend = 'cvc5'
@@ -532,6 +551,13 @@ def confirm_loop(s: z3.Solver, S: Sym, p, contract: Contract, label: str, attemp
     return first if first is not None else (None, None, None, None)
 
 
+def _safe_check(s):
+    try:
+        return s.check()
+    except z3.Z3Exception:
+        return z3.unknown
+
+
 def portfolio_check(assertions, timeout_ms):
     """z3 default (short budget) -> z3 qflia tactic -> z3 default (full budget).
     Returns (solver, result, how)."""
@@ -539,9 +565,15 @@ def portfolio_check(assertions, timeout_ms):
     s = z3.Solver()
     s.set('timeout', short)
     s.add(*assertions)
-    r = s.check()
+    r = _safe_check(s)
     if r != z3.unknown:
         return s, r, 'z3'
+    smt = s.to_smt2()
+    if 'String' in smt or 'seq.' in smt or 'str.' in smt:
+        # string obligations: cvc5 decides what z3's sequence solver leaves open
+        r2 = cvc5_check(s, timeout_ms)
+        if r2 == 'unsat':
+            return s, z3.unsat, 'cvc5'
     try:
         t = z3.Then('simplify', 'purify-arith', 'solve-eqs', 'qflia').solver()
         t.set('timeout', timeout_ms)
@@ -555,7 +587,7 @@ def portfolio_check(assertions, timeout_ms):
         s = z3.Solver()
         s.set('timeout', timeout_ms)
         s.add(*assertions)
-        r = s.check()
+        r = _safe_check(s)
     return s, r, 'z3'
 
 
@@ -655,8 +687,7 @@ def encoder_validation(contract: Contract, paths, S: Sym, seed: int, n: int):
     for inputs in contract.samples(rng):
         if compared + unmodelled + outside_pre >= n:
             break
-        hit = None
-        sub = None
+        candidates = []     # (path, substitution, exact?) whose path condition admits the sample
         bind_error = None
         for p in paths:
             if p.outcome[0] == 'cut':
@@ -671,49 +702,55 @@ def encoder_validation(contract: Contract, paths, S: Sym, seed: int, n: int):
                 bind_error = f'cannot bind: {e}'
                 break
             ok = True
+            residual = []
             for c in p.pc:
                 r = z3.simplify(z3.substitute(c, *psub))
                 if z3.is_false(r):
                     ok = False
                     break
                 if not z3.is_true(r):
-                    ok = None
-                    break
+                    residual.append(r)
+            if ok and residual:
+                # conjuncts over uninterpreted symbols (f64, results of float arithmetic): the
+                # model is nondeterministic there; satisfiable => this path is an allowed behaviour
+                sv = z3.Solver()
+                sv.set('timeout', 1000)
+                sv.add(*residual)
+                rr = _safe_check(sv)
+                ok = True if rr == z3.sat else (False if rr == z3.unsat else None)
             if ok:
-                hit = p
-                sub = psub
-                break
-            if ok is None:
-                hit = 'unmodelled'
+                candidates.append((p, psub, not residual))
+                if not residual:
+                    break
         if bind_error:
             disagreements.append({'inputs': {k: repr(v) for k, v in inputs.items()}, 'why': bind_error})
             continue
-        if hit is None:
+        if not candidates:
             outside_pre += 1      # the sample violates the precondition: nothing to compare
             continue
-        if hit == 'unmodelled':
-            unmodelled += 1
-            continue
         nat = contract.native(inputs)
-        oc = hit.final_outcome
-        agree = None
-        if nat[0] != oc[0]:
-            agree = False
-        elif oc[0] == 'raise':
-            e = nat[1]
-            agree = (type(e) is oc[1].pycls or type(e).__name__ == oc[1].pycls.__name__) and \
-                (oc[1].code is None or native_code(e) == oc[1].code)
-        else:
-            agree = values_agree(subst_val(oc[1], sub), nat[1])
-        if agree is None:
-            unmodelled += 1
-        else:
+        verdicts = []
+        for hit, sub, exact_path in candidates:
+            oc = hit.final_outcome
+            if nat[0] != oc[0]:
+                agree = False
+            elif oc[0] == 'raise':
+                e = nat[1]
+                agree = (type(e) is oc[1].pycls or type(e).__name__ == oc[1].pycls.__name__) and \
+                    (oc[1].code is None or native_code(e) == oc[1].code)
+            else:
+                agree = values_agree(subst_val(oc[1], sub), nat[1])
+            verdicts.append(agree)
+        if any(v is True for v in verdicts):
             compared += 1
             if len(sample_list) < 3:
                 sample_list.append({'inputs': {k: repr(v) for k, v in inputs.items()}, 'native': repr(nat)[:120]})
-            if not agree:
-                disagreements.append({'inputs': {k: repr(v) for k, v in inputs.items()},
-                                      'native': repr(nat)[:200], 'symbolic': repr(oc)[:200]})
+        elif any(v is None for v in verdicts):
+            unmodelled += 1
+        else:
+            compared += 1
+            disagreements.append({'inputs': {k: repr(v) for k, v in inputs.items()}, 'native': repr(nat)[:200],
+                                  'symbolic': [repr(c[0].final_outcome)[:200] for c in candidates][:3]})
     return {'compared': compared, 'unmodelled': unmodelled, 'outside_pre': outside_pre,
             'disagreements': disagreements, 'samples': sample_list}
 
@@ -747,6 +784,8 @@ def native_post(contract: Contract, inputs: dict, label: str, extra: dict | None
         env.update(returned=False, raised_code=native_code(e), raised_cls=type(e),
                    raised_name=type(e).__name__)
     expr = dict(contract.post)[label]
+    if nat[0] != 'return':
+        expr = drop_result_disjuncts(expr)
     for p in contract.pre:
         if not eval(p, env):
             return None, nat
